@@ -3,8 +3,8 @@
 From Coq Require Import ZArith String List Bool QArith Qround Qminmax Qabs Lia.
 From QV Require Import QTools.OpCount QTools.OpCountSyn Link.OpCountLink.
 From QVGen Require Import OpCountGen.
-From QVGen Require EnergyGen.
-From QV Require QTools.Energy Link.EnergyLink.
+From QVGen Require EnergyGen MemGen.
+From QV Require QTools.Energy Link.EnergyLink Link.MemLink.
 Open Scope Z_scope.
 Import ListNotations.
 
@@ -177,3 +177,37 @@ Theorem C19_total_is_sum_of_all_entries : forall l,
   Energy.qsum4 l == fold_right Qplus 0 (concat (map (fun e => let '(a, b, c, d) := e in [a; b; c; d]) l)).
 Proof. exact Energy.total_is_sum_of_all_entries. Qed.
 Print Assumptions C19_total_is_sum_of_all_entries.
+
+(* ---- the memory entries of energy_estimate as /repo has them now (coq/gen/MemGen.v, regenerated on every run) ---- *)
+Theorem C19_mem_translation_ok : MemGen.translation_ok = true.
+Proof. exact MemLink.link_mem_ok. Qed.
+Theorem C19_code_memory_entries_nonnegative : forall at_io rw mode d sr sw, 0 <= d -> 0 <= sr -> 0 <= sw ->
+  0 <= MemGen.gen_mem_read at_io rw mode d sr sw /\ 0 <= MemGen.gen_mem_write at_io rw mode d sr sw.
+Proof. intros. rewrite MemLink.link_mem_read, MemLink.link_mem_write. apply Energy.mem_nonneg; assumption. Qed.
+Print Assumptions C19_code_memory_entries_nonnegative.
+(* hard-wired ("fixed") weights, or any placement that is neither DRAM nor SRAM, cost nothing inside the network *)
+Theorem C19_code_other_placement_costs_nothing : forall rw mode a b c,
+  String.eqb mode "dram" = false -> String.eqb mode "sram" = false ->
+  MemGen.gen_mem_read false rw mode a b c == 0 /\ MemGen.gen_mem_write false rw mode a b c == 0.
+Proof. intros rw mode a b c D S. rewrite MemLink.link_mem_read, MemLink.link_mem_write.
+  destruct (Energy.mem_other_placement_costs_nothing rw mode a b c D S) as [R W]. rewrite R, W. split; reflexivity. Qed.
+Print Assumptions C19_code_other_placement_costs_nothing.
+(* at the model's inputs and outputs the placement option does not matter *)
+Theorem C19_code_io_ignores_placement : forall rw mode mode' a b c,
+  MemGen.gen_mem_read true rw mode a b c == MemGen.gen_mem_read true rw mode' a b c /\
+  MemGen.gen_mem_write true rw mode a b c == MemGen.gen_mem_write true rw mode' a b c.
+Proof. intros. rewrite !MemLink.link_mem_read, !MemLink.link_mem_write.
+  destruct (Energy.mem_io_ignores_placement rw mode mode' a b c) as [R W]. rewrite R, W. split; reflexivity. Qed.
+Print Assumptions C19_code_io_ignores_placement.
+(* DRAM placement pays the DRAM access with or without rd_wr_on_io; the flag only adds the staging through SRAM *)
+Theorem C19_code_dram_pays_dram_access : forall dr dw sr sw,
+  MemGen.gen_mem_read false false "dram" dr sr sw == dr /\ MemGen.gen_mem_write false false "dram" dw sr sw == dw /\
+  MemGen.gen_mem_read false true "dram" dr sr sw == dr + sw /\ MemGen.gen_mem_write false true "dram" dw sr sw == sr + dw.
+Proof. intros. rewrite !MemLink.link_mem_read, !MemLink.link_mem_write. unfold Energy.mem_read, Energy.mem_write, Energy.eff_mode.
+  cbn [String.eqb Ascii.eqb Bool.eqb]. repeat split; ring. Qed.
+Print Assumptions C19_code_dram_pays_dram_access.
+Theorem C19_code_sram_pays_one_access : forall rw dr dw sr sw,
+  MemGen.gen_mem_read false rw "sram" dr sr sw == sr /\ MemGen.gen_mem_write false rw "sram" dw sr sw == sw.
+Proof. intros. rewrite MemLink.link_mem_read, MemLink.link_mem_write.
+  destruct (Energy.mem_sram_pays_one_sram_access rw dr dw sr sw) as [R W]. rewrite R, W. split; reflexivity. Qed.
+Print Assumptions C19_code_sram_pays_one_access.
